@@ -3,6 +3,7 @@ from pvrules.mir import is_call, peel, show, strip_generics, subterms
 from pvrules.rules import (SELF_FIELD, callsite_of, const_int, count_range, elem_of, rejecting, result_assign_blocks,
                            try_continue_block)
 from . import hash_common as hc
+from . import vec_common as vc
 
 LEVEL = "other"
 EXPLANATION = ("Static MIR rules over src/vec.rs, src/value.rs and the local vector forms: the hash input of a label-value tuple is injective "
@@ -293,6 +294,8 @@ def run(ctx):
     f = ctx.facts("default")
     for rid, fn in (("R1", rule_R1), ("R2", rule_R2), ("R3", rule_R3), ("R4", rule_R4), ("R5", rule_R5), ("R6", rule_R6)):
         ctx.run_rule(rid, fn, f)
+    # one child per tuple also under racing first requests (shared with C10.R2)
+    ctx.run_rule("R7", lambda c: vc.rule_double_checked_creation(c, f, "R7"))
     if ctx.tier == "thorough":
         g = ctx.facts("plain")
         ctx.run_rule("R1@plain", lambda c, _f: rule_R1(c, g), None)
